@@ -107,17 +107,24 @@ def run(ck):
             fv = np.zeros(d, dtype=np.float32); fv[0] = 1.0
             gate_kw = dict(split_method='fixed_vector', fixed_vector=torch.tensor(fv))
             tuned = False; fixedT = 0.3; L = max(L, n // 3)
+        # a split direction that is not of unit length (fixed_vector takes the user's vector as it is) with soft routing: the gate's logit is
+        # (projection - split_point) / (T * scale), so direction, point and scale have to come back together
+        nonunit_gate = (i % 7 == 5) and not depth0 and not flat_gate and (i % 9 != 7)
+        if nonunit_gate:
+            fv = (rng.integers(-8, 9, size=d) / 2.0).astype(np.float32); fv[0] = 2.5
+            gate_kw = dict(split_method='fixed_vector', fixed_vector=torch.tensor(fv))
+            tuned = bool(i % 2); fixedT = None if tuned else 0.7
         # a positive temperature is configured, tuning is on and selects hard routing (its only candidate is 0): the learned value None differs
         # from the constructor value that a fresh model starts with
-        tuned_to_hard = (i % 8 == 4) and not flat_gate and not depth0
+        tuned_to_hard = (i % 8 == 4) and not flat_gate and not depth0 and not nonunit_gate
         if tuned_to_hard:
             tuned = True; fixedT = 0.6
-        desc = dict(i=i, kernel=kern, task=task, cmode=cmode, n_trees=n_trees, n=n, L=L, f=f, bw=bw, tuned=tuned, tuned_to_hard=tuned_to_hard, fixedT=fixedT, diag=bool(i % 2), tree_iters=int(i % 4 == 2 and not flat_gate), flat_gate=flat_gate, seed=ck.seed)
+        desc = dict(i=i, kernel=kern, task=task, cmode=cmode, n_trees=n_trees, n=n, L=L, f=f, bw=bw, tuned=tuned, tuned_to_hard=tuned_to_hard, fixedT=fixedT, diag=bool(i % 2), tree_iters=int(i % 4 == 2 and not flat_gate and not nonunit_gate), flat_gate=flat_gate, nonunit_gate=nonunit_gate, seed=ck.seed)
         ctor = dict(rfm_params=xr.default_rfm_params(kernel=kern, iters=1, diag=bool(i % 2), bandwidth=3.0, exponent=[1.0, 1.2][i % 2],
                                                      bandwidth_mode=bw, reg=1e-2, **extra),
                     max_leaf_size=L, n_trees=n_trees, overlap_fraction=f, verbose=False, classification_mode=cmode,
                     use_temperature_tuning=tuned, split_temperature=fixedT, temp_tuning_space=([0.0] if tuned_to_hard else [0.0, 0.1, 0.7, 2.5]), refill_size=20,
-                    **(gate_kw if flat_gate else dict(split_method='random_global_agop', n_tree_iters=1) if i % 4 == 2 else {}))
+                    **(gate_kw if (flat_gate or nonunit_gate) else dict(split_method='random_global_agop', n_tree_iters=1) if i % 4 == 2 else {}))
         if i % 7 == 6:
             ctor['rfm_params'] = None          # the library's default leaf model (rfm_params=None)
             desc['default_params'] = True
